@@ -283,6 +283,7 @@ def residual_loop_problems(fn: FuncInfo, rd: RD, name: ast.Name) -> list[str]:
 # --------------------------------------------------------------------------- R-UNIVERSE: abstract collections
 U = ("unknown",)
 ELEMENT_KINDS = {"elem", "iterset", "pair"}
+YIELDED = "<yielded>"  # hidden accumulator of a generator function (no program can spell the name)
 
 
 class Universe:
@@ -535,9 +536,19 @@ class Universe:
     def run_function(self, h: FuncInfo, env: dict):
         self.depth += 1
         self.followed.append(h.qual)
+        generator = any(isinstance(n, (ast.Yield, ast.YieldFrom)) for n in walk_function(h.node, nested=False))
+        self.generators = [*getattr(self, "generators", []), generator]
         try:
             rets: list = []
-            self.block(h.node.body, env, rets)
+            if generator:
+                # a generator function: its value is the collection of everything it yields (hidden accumulator, read at
+                # every exit; an early `return` is one more exit, so only what was yielded on EVERY path is credited)
+                env = dict(env)
+                env[YIELDED] = ("set", frozenset())
+                if not self.block(h.node.body, env, rets):
+                    rets.append(env[YIELDED])
+            else:
+                self.block(h.node.body, env, rets)
             if not rets:
                 return U
             v = rets[0]
@@ -546,6 +557,7 @@ class Universe:
             return v
         finally:
             self.depth -= 1
+            self.generators.pop()
 
     # ---------------------------------------------------------------- statements
     def block(self, stmts: list[ast.stmt], env: dict, rets: list) -> bool:
@@ -575,8 +587,20 @@ class Universe:
 
     def stmt(self, st: ast.stmt, env: dict, rets: list) -> bool:
         if isinstance(st, ast.Return):
+            if getattr(self, "generators", None) and self.generators[-1]:
+                rets.append(env.get(YIELDED, U))  # `return` in a generator ends the iteration
+                return True
             rets.append(self.ev(st.value, env) if st.value is not None else U)
             return True
+        if isinstance(st, ast.Expr) and isinstance(st.value, (ast.Yield, ast.YieldFrom)) and getattr(self, "generators", None) and self.generators[-1] and YIELDED in env:
+            if st.value.value is None:
+                return False
+            v = self.ev(st.value.value, env)
+            if isinstance(st.value, ast.YieldFrom):
+                self.accumulate(YIELDED, [v], env, st)
+            elif v[0] == "elem":
+                self.accumulate(YIELDED, [("iterset", v[1])], env, st)
+            return False
         if isinstance(st, ast.Raise):
             return True
         if isinstance(st, (ast.Assign, ast.AnnAssign)):
@@ -766,23 +790,15 @@ def run(ctx: Check, tree: Tree) -> None:
         if q in {"attrs.evolve", "attr.evolve", "dataclasses.replace"}:
             return "evolve"
         f = c.func
+        if isinstance(f, ast.Name):
+            # a local that only ever holds the class (`model_type = type(self)`)
+            defs = rd.reaching(f)
+            if defs and all(d.kind == "assign" and d.index is None and d.value is not None for d in defs) and len({unparse(d.value) for d in defs}) == 1:
+                f = next(iter(defs)).value
         if (q == MODEL or (isinstance(f, ast.Call) and isinstance(f.func, ast.Name) and f.func.id == "type" and len(f.args) == 1 and unparse(f.args[0]) == "self")
                 or (isinstance(f, ast.Attribute) and f.attr == "__class__" and unparse(f.value) == "self")):
             return "constructor"  # HelicityModel(...) / type(self)(...): every field is spelled out
         return None
-
-    evolves = [c for c in walk_function(fn.node) if isinstance(c, ast.Call) and rebuilds(c)]
-    if len(evolves) != 1:
-        raise AnalysisError(f"rename_symbols: expected one attrs.evolve call (or one constructor call), found {len(evolves)}")
-    ev = evolves[0]
-    if any(isinstance(a, ast.Starred) for a in ev.args):
-        raise AnalysisError("rename_symbols: attrs.evolve(*args) - the rebuilt fields are not spelled as keywords")
-    kws = {k.arg: k.value for k in ev.keywords if k.arg}
-    if rebuilds(ev) == "evolve":
-        if not (ev.args and unparse(inl.expr(ev.args[0])) == "self"):
-            ctx.violation("R-FIELDS", f"{fn.qual}::evolve-base", tree.loc(ev), "attrs.evolve is not applied to self")
-    else:
-        kws.update(dict(zip(fields, ev.args)))
 
     # the mapping variable: the local whose value (helpers followed) is a dict comprehension that creates sp.Symbol objects
     def symbol_calls(e: ast.AST) -> list[ast.Call]:
@@ -810,6 +826,25 @@ def run(ctx: Check, tree: Tree) -> None:
         check_sequential_mapping(ctx, tree, fn, rd)
         raise AnalysisError("rename_symbols: symbol mapping (dict comprehension of sp.Symbol) not found")
     mapping, comp = mapping_defs[0]
+    evolves = [c for c in walk_function(fn.node) if isinstance(c, ast.Call) and rebuilds(c)]
+    if not evolves:
+        # the model is rebuilt by a helper that receives the mapping (`return self.__apply(symbol_mapping)`): the value the call returns
+        for r in walk_function(fn.node, nested=False):
+            if isinstance(r, ast.Return) and isinstance(strip(r.value), ast.Call) and tree.callee(strip(r.value), fn) in tree.funcs:
+                closed = strip(inl.expr(r.value, stop={mapping.name}))
+                evolves += [c for c in ast.walk(closed) if isinstance(c, ast.Call) and getattr(c, "_module", None) is not None and rebuilds(c)]
+    if len(evolves) != 1:
+        raise AnalysisError(f"rename_symbols: expected one attrs.evolve call (or one constructor call), found {len(evolves)}")
+    ev = evolves[0]
+    if any(isinstance(a, ast.Starred) for a in ev.args):
+        raise AnalysisError("rename_symbols: attrs.evolve(*args) - the rebuilt fields are not spelled as keywords")
+    kws = {k.arg: k.value for k in ev.keywords if k.arg}
+    if rebuilds(ev) == "evolve":
+        if not (ev.args and unparse(inl.expr(ev.args[0])) == "self"):
+            ctx.violation("R-FIELDS", f"{fn.qual}::evolve-base", tree.loc(ev), "attrs.evolve is not applied to self")
+    else:
+        kws.update(dict(zip(fields, ev.args)))
+
     for k in [k for k in ev.keywords if k.arg is None]:
         # **{"intensity": ..., ...} / **dict(intensity=..., ...) / a local (or helper) with such a value
         packed = strip(inl.expr(k.value, stop={mapping.name}))
